@@ -124,12 +124,6 @@ func _yieldUnmarshalMachinePtr(row *unmarshalSlabRow, atl atlas.Atlas, rt reflec
 		mach.err = fmt.Errorf("missing an atlas entry describing how to unmarshal type %v (and auto-atlasing for structs is not enabled)", rt)
 		return mach
 	case reflect.Interface:
-		if rt.NumMethod() > 0 {
-			// We cannot guess a concrete type that implements the interface.
-			mach := &row.errThunkUnmarshalMachine
-			mach.err = fmt.Errorf("missing an atlas entry describing how to unmarshal interface type %v (a union morphism is needed for interfaces with methods)", rt)
-			return mach
-		}
 		return &row.unmarshalMachineWildcard
 	case reflect.Ptr:
 		panic(fmt.Errorf("unreachable: ptrs must already be resolved"))
